@@ -10,7 +10,7 @@ ATOMISTIC = {
     'TRI': '[$]CC[$][$]', 'QUA': '[$]C([$])([$])C', 'SUR': '[$]C[$][$][>][<]', 'DIR': '[>]C[>]C[<]', 'SQ': '[!]CC[!]',
     'SQ2': 'C[!]C[$]', 'PY': '[$]c1ccncc1', 'SO': '[$]CS(=O)(=O)C[$]', 'PH': '[$]OP(=O)(O)O[$]', 'CL': '[$]CCl',
     'MIX': '[$]C[>]C[<][$]', 'DBL': 'C=[$]C[$]', 'ARO': '[$]c1ccc([$])cc1', 'ORD': '[$]=C[$]', 'NA': '[$][O-].[Na+]',
-    'WT': '[$][C;0.5]([H;0.1])[$]', 'ONE': '[$][C;0.25;lab=abc][$]', 'ON2': '[>][N;2;x=S][<]', 'ZER': 'C.[$]C[$]', 'ZE2': '[$].CC[$][$]', 'CH': '[<]C[C;x=R][>](F)Cl',
+    'WT': '[$][C;0.5]([H;0.1])[$]', 'ONE': '[$][C;0.25;lab=abc][$]', 'W0': '[$][C;0]C[$]', 'W1': '[>][N;w=0]C[C;w=0.5][<]', 'W2': '[$]C[O;0;x=R]', 'ON2': '[>][N;2;x=S][<]', 'ZER': 'C.[$]C[$]', 'ZE2': '[$].CC[$][$]', 'CH': '[<]C[C;x=R][>](F)Cl',
 }
 COARSE = {
     'CA': '[>][#X][#Y][<]', 'CB': '[$][#P]1[#Q][#R]1[$]', 'CC': '[$][#S][$][$]', 'CD': '[>][#T]=[#U][<][$]',
